@@ -292,7 +292,7 @@ def check_fit(ctx, repo, out, cls, bool_typed, eval_score_key, signs):
     if len(tables) == 1:
         res_table = tables[0]
     if bi is None:
-        out.add(scen, "undecided", "R1", "%s.fit:best_index_" % D, "fit does not store best_index_", loc0)
+        out.add(scen, "violation", "R1", "%s.fit:best_index_" % D, "fit does not store best_index_", loc0, "not-stored")
     else:
         def sel_parts(t):
             if is_mcall(t) and t.a[0].a[1] in MIN_SEL + MAX_SEL and not t.a[1]:
@@ -716,8 +716,42 @@ def check_fit(ctx, repo, out, cls, bool_typed, eval_score_key, signs):
     else:
         out.add(scen, "undecided", "R2", "%s.fit:best_forecaster_" % D, "best_forecaster_ not understood: %s" % show(bfv), locb)
     cvr = heap.get("cv_results_")
-    out.check(scen, None if cvr is None or res_table is None else table_core(cvr) == res_table, "R2", "%s.fit:cv_results_" % D,
-              "cv_results_ is the ranked table", "cv_results_ is not the table best_* are read from", loc0, vkey="table")
+    if cvr is not None:
+        out.check(scen, None if res_table is None else table_core(cvr) == res_table, "R2", "%s.fit:cv_results_" % D,
+                  "cv_results_ is the ranked table", "cv_results_ is not the table best_* are read from", loc0, vkey="table")
+    # the outcome of the search is (re-)established by every fit: each result attribute is stored on every normal path
+    from ._c07_prov import UNBOUND
+    for name in ("cv_results_", "best_index_", "best_score_", "best_params_", "best_forecaster_"):
+        v = heap.get(name)
+        partial = isinstance(v, T) and (v == UNBOUND or (v.op == "phi" and UNBOUND in v.a[0]))
+        out.check(scen, v is not None and not partial, "R2", "%s.fit:stores(%s)" % (D, name), "fit stores %s on every path" % name,
+                  "fit %s %s: after fit the attribute is missing (AttributeError on access), after a second fit it is the previous search's value"
+                  % ("never stores" if v is None else "stores only on some paths", name), loc0, vkey="not-stored")
+
+    # ------------------------------------------------ the "no fits" rejection only rejects an empty search
+    lens = {}
+    for e in A.events:
+        if e.kind == "raise":
+            for t, _ in e.pc:
+                for x in subterms(t):
+                    if is_call(x, fn("builtins.len")) and len(x.a[1]) == 1 and isinstance(strip_list(x.a[1][0]), T) \
+                            and strip_list(x.a[1][0]).op == "map":
+                        lens.setdefault(x, []).append(e)
+    for lt, evs_ in lens.items():
+        try:
+            rejected = []
+            for n_ in (0, 1, 2, 3):
+                from ._c07_prov import valuations
+                for val, _free in valuations([e.pc for e in evs_], {lt: n_}):
+                    if any(pc_holds(e.pc, val) for e in evs_):
+                        rejected.append(n_)
+                        break
+            bad = [n_ for n_ in rejected if n_ >= 1]
+            out.check(scen, not bad, "R3", "%s.fit:rejects-only-empty-search" % D, "a search is rejected only when no candidate was evaluated",
+                      "a search with %d evaluated candidate(s) is rejected (ValueError) after all its fits were run: a one-candidate grid / n_iter=1 "
+                      "is a legal search whose sole candidate must be selected and refitted" % (bad[0] if bad else 0), L(evs_[0]), vkey="n=%s" % (bad[:1],))
+        except Undef:
+            pass
 
     # ------------------------------------------------ R4 refit / fitted flag
     anyfit = [e for e in A.events if e.kind == "call" and not e.stack and isinstance(e.callee, T) and e.callee.op == "attr"
@@ -951,7 +985,9 @@ def check_guard_method(ctx, repo, out, cls):
                 if mn is not None and not refit:
                     ok = len(rais) == 1 and not rets and is_call(rais[0][1], fn("sktime.exceptions.NotFittedError"))
                 elif mn is not None:
-                    ok = not rais and len(rets) == 1 and len(inner) <= 1
+                    # the inner check is not redundant: fit(refit=False) then set_params(refit=True) (or a second fit failing in the
+                    # final refit) leaves an unfitted best_forecaster_ behind a tuner whose own flag and `refit` both say "fitted"
+                    ok = not rais and len(rets) == 1 and len(inner) == 1
                 else:
                     ok = not rais and len(rets) == 1
                 if not ok and bad is None:
@@ -1228,6 +1264,6 @@ def run(ctx):
                      "each candidate's row and therefore the selection rest on evaluate()")
     check_no_frozen_ctor_state(ctx, repo)
     ctx.floor("R1", 36)
-    ctx.floor("R2", 9)
+    ctx.floor("R2", 14)
     ctx.floor("R3", 71)
     ctx.floor("R4", 71)
